@@ -37,6 +37,7 @@ type failure struct {
 	cond            string // "<level>-<enabled|disabled|sampled-out>"
 	hook, core      string
 	derived         string
+	message         string // blank | non-blank
 	dev             bool
 	detail          string
 	caseID          string
@@ -132,7 +133,7 @@ func runCase(c caseSpec) []failure {
 	add := func(kind, detail string) {
 		fails = append(fails, failure{
 			fe: c.form.fe, family: c.form.family, via: c.form.via, kind: kind,
-			cond: lvl.String() + "-" + cond, hook: c.hook.relevant(lvl), core: c.core.name, derived: c.der.name, dev: dev,
+			cond: lvl.String() + "-" + cond, hook: c.hook.relevant(lvl), core: c.core.name, derived: c.der.name, message: shape(c.form.msg), dev: dev,
 			detail: detail, caseID: c.id(),
 		})
 	}
@@ -264,11 +265,19 @@ func newUniverse() *universe {
 	return &universe{dims: map[string]map[string]map[string]bool{}, fesCond: map[string]map[string]string{}}
 }
 
-func (u *universe) note(fe, family, cond, via, hook, core, derived string, dev bool) {
+func shape(msg string) string {
+	if msg == "" {
+		return "blank"
+	}
+	return "non-blank"
+}
+
+func (u *universe) note(fe, family, cond, via, hook, core, derived, message string, dev bool) {
 	k := fe + "|" + cond
 	if u.dims[k] == nil {
-		u.dims[k] = map[string]map[string]bool{"via": {}, "hook": {}, "core": {}, "derived": {}, "development": {}}
+		u.dims[k] = map[string]map[string]bool{"via": {}, "hook": {}, "core": {}, "derived": {}, "message": {}, "development": {}}
 	}
+	u.dims[k]["message"][message] = true
 	u.dims[k]["derived"][derived] = true
 	u.dims[k]["via"][via] = true
 	u.dims[k]["hook"][hook] = true
@@ -317,8 +326,9 @@ func report(run *ev.Run, u *universe, fails []failure) {
 	var baseOrder []string
 	for _, k := range order {
 		g := groups[k]
-		seen := map[string]map[string]bool{"via": {}, "hook": {}, "core": {}, "derived": {}, "development": {}}
+		seen := map[string]map[string]bool{"via": {}, "hook": {}, "core": {}, "derived": {}, "message": {}, "development": {}}
 		for _, f := range g.fs {
+			seen["message"][f.message] = true
 			seen["via"][f.via] = true
 			seen["derived"][f.derived] = true
 			seen["hook"][f.hook] = true
@@ -326,7 +336,7 @@ func report(run *ev.Run, u *universe, fails []failure) {
 			seen["development"][fmt.Sprint(f.dev)] = true
 		}
 		base := g.kind + ":" + g.cond
-		for _, dim := range []string{"via", "hook", "core", "derived", "development"} {
+		for _, dim := range []string{"message", "via", "hook", "core", "derived", "development"} {
 			all := u.dims[g.fe+"|"+g.cond][dim]
 			if len(seen[dim]) < len(all) {
 				base += ":" + dim + "=" + strings.Join(keysOf(seen[dim]), ",")
@@ -499,10 +509,10 @@ func main() {
 							continue
 						}
 						cond := fm.level.String() + "-" + ck.cond(fm.level)
-						u.note(fm.fe, fm.family, cond, fm.via, hs.relevant(fm.level), ck.name, der.name, edev)
+						u.note(fm.fe, fm.family, cond, fm.via, hs.relevant(fm.level), ck.name, der.name, shape(fm.msg), edev)
 						fs := runCase(c)
 						evals++
-						distinct[fmt.Sprintf("%s|%s|%s|%s|%v|%s", ck.group, fm.fe, cond, hs.relevant(fm.level), edev, expectedAction(fm.level, edev, hs))] = true
+						distinct[fmt.Sprintf("%s|%s|%s|%s|%v|%s|blank=%v", ck.group, fm.fe, cond, hs.relevant(fm.level), edev, expectedAction(fm.level, edev, hs), fm.msg == "")] = true
 						fails = append(fails, fs...)
 						if evals%17911 == 1 && len(samples) < 10 {
 							samples = append(samples, map[string]any{"case": c.id(), "expected_action": expectedAction(fm.level, edev, hs).String(), "expected_message": fm.msg})
@@ -536,7 +546,7 @@ func main() {
 	}
 	results := runCrash(todo)
 	for i, r := range todo {
-		u.note(r.feName(), r.family(), r.cond(), "real-process", "unset", "file:"+r.sink, "none", r.level == "dpanic")
+		u.note(r.feName(), r.family(), r.cond(), "real-process", "unset", "file:"+r.sink, "none", "non-blank", r.level == "dpanic")
 		distinct[fmt.Sprintf("crash|%s|%s|%s", r.sink, r.front, r.level)] = true
 		fails = append(fails, results[i]...)
 		evals++
@@ -559,7 +569,7 @@ func main() {
 	run.Finish(map[string]any{
 		"evaluations":         evals,
 		"distinct_nontrivial": len(distinct),
-		"rule":                "in-process: four groups of logger kinds (healthy core compositions; cores with failing sinks - Write failing always / from the k-th write, tees in both orders, buffered over a failing sink, failing Sync; loggers built by zap.Config over base x DisableStacktrace x DisableCaller x Level x Sampling with Development as the development dimension; the preset constructors NewProduction/NewDevelopment/NewExample), each as the full product kinds x development x hook settings (panic hook x fatal hook; quick pairs the i-th choices, thorough the full product) x logger derivations x call forms (front-end method x via x level x argument shape), every case run on the real code with the exit stubbed; real-process: sink family x front end x level in a re-executed child leaving through the real os.Exit / uncaught panic. distinct = distinct (front-end method, level+entry condition, hook setting, development, expected action) classes plus distinct child configurations; every class asserts a terminal action (or its absence for DPanic outside development) and the sink state at that moment",
+		"rule":                "in-process: four groups of logger kinds (healthy core compositions; cores with failing sinks - Write failing always / from the k-th write, tees in both orders, buffered over a failing sink, failing Sync; loggers built by zap.Config over base x DisableStacktrace x DisableCaller x Level x Sampling with Development as the development dimension; the preset constructors NewProduction/NewDevelopment/NewExample), each as the full product kinds x development x hook settings (panic hook x fatal hook; quick pairs the i-th choices, thorough the full product) x logger derivations x call forms (front-end method x via x level x argument shape, including blank shapes: empty message, empty template, no arguments, and for the std-log bridge empty / white-space-only / padded text), every case run on the real code with the exit stubbed; real-process: sink family x front end x level in a re-executed child leaving through the real os.Exit / uncaught panic. distinct = distinct (kind group, front-end method, level+entry condition, governing hook choice, development, expected action, blank/non-blank message) classes plus distinct child configurations; every class asserts a terminal action (or its absence for DPanic outside development) and the sink state at that moment",
 		"samples":             samples,
 		"exhaustive":          true,
 		"inprocess_cases":     inproc,
